@@ -55,7 +55,7 @@ pub fn prop() -> Prop {
         stub: &["transport", "store", "glue", "random source", "corrupting / Byzantine network"],
         independent: &[],
         ref_sample: |_| 0,
-        required_probes: &["decoder_bin", "decoder_json", "mut_flip", "mut_insert", "mut_delete", "mut_truncate", "mut_splice", "mut_inflate", "mut_cross_suite", "mutated_still_decodes", "call_sign", "call_aggregate", "call_verify_signature_share", "call_key_package_try_from", "call_dkg_part2", "call_dkg_part3", "call_refresh_share", "call_refresh_dkg", "call_compute_refreshing_shares", "call_repair", "call_reconstruct", "call_batch", "call_rerandomized", "call_split", "call_misc"],
+        required_probes: &["decoder_bin", "decoder_json", "mut_flip", "mut_insert", "mut_delete", "mut_truncate", "mut_splice", "mut_inflate", "mut_cross_suite", "mutated_still_decodes", "call_sign", "call_aggregate", "call_verify_signature_share", "call_key_package_try_from", "call_dkg_part2", "call_dkg_part3", "call_refresh_share", "call_refresh_dkg", "call_compute_refreshing_shares", "call_repair", "call_reconstruct", "call_batch", "call_rerandomized", "call_split", "call_misc", "targeted_zero_sum_dkg", "targeted_oversized_share"],
         prepare: None,
     }
 }
@@ -614,6 +614,133 @@ fn exec_c<C: Suite>(scen: &Scenario) -> Exec {
             }
         }
     }
+    // ---- part C: targeted adversarial constructions (cheap ones every run, the oversized one now and then) -----------------
+    // (1) zero-sum key generation: one peer's round-1 contribution handed to part3 cancels everybody else's constant terms
+    //     (its round-2 share is consistent with it: the sender needs no discrete log for that). The group key becomes the
+    //     identity; every later step must return a value or an error.
+    if let (Some(s2), true) = (&cx.r2_secret, cx.r1_pkgs.len() >= 1) {
+        let own_c0 = s2.commitment().serialize().ok().and_then(|v| v.first().and_then(|b| el_from_bytes::<C>(b)));
+        let sender = *cx.r1_pkgs.keys().next().unwrap();
+        let mut others_sum = own_c0;
+        for (id, pkg) in &cx.r1_pkgs {
+            if *id == sender {
+                continue;
+            }
+            let c0 = pkg.commitment().serialize().ok().and_then(|v| v.first().and_then(|b| el_from_bytes::<C>(b)));
+            others_sum = match (others_sum, c0) {
+                (Some(a), Some(b)) => Some(a + b),
+                _ => None,
+            };
+        }
+        if let Some(sum) = others_sum {
+            let t = scen.t as usize;
+            let x = id_scalar::<C>(&cx.ids[0]);
+            let c0p = base::<C>(zero::<C>()) - sum; // -(sum of the others)
+            let share = sc_random_nonzero::<C>(&mut p);
+            let rs: Vec<frost::Scalar<C>> = (2..t).map(|_| sc_random_nonzero::<C>(&mut p)).collect();
+            let mut acc = share;
+            let mut xp = x * x;
+            for r in &rs {
+                acc = acc - *r * xp;
+                xp = xp * x;
+            }
+            if let Ok(xinv) = <F<C> as frost_core::Field>::invert(&x) {
+                let c1 = (base::<C>(acc) - c0p) * xinv;
+                let mut entries: Vec<Option<Vec<u8>>> = vec![el_bytes::<C>(&c0p), el_bytes::<C>(&c1)];
+                entries.extend(rs.iter().map(|r| el_bytes::<C>(&base::<C>(*r))));
+                if t >= 2 && entries.iter().all(|e| e.is_some()) {
+                    let entries: Vec<Vec<u8>> = entries.into_iter().map(|e| e.unwrap()).collect();
+                    if let Ok(cm) = VerifiableSecretSharingCommitment::<C>::deserialize(entries.iter()) {
+                        let honest = cx.r1_pkgs[&sender].clone();
+                        let mut m1 = cx.r1_pkgs.clone();
+                        m1.insert(sender, round1::Package::new(cm.clone(), *honest.proof_of_knowledge()));
+                        // round-2 shares: the crafted one for the sender, and for everybody else what an honest run would send
+                        // is not available here (participant 0's honest shares from the others): craft consistent ones the same way
+                        // is impossible without their secrets, so only the two-participant world reaches the sum. Use n = 2 semantics:
+                        let mut m2: BTreeMap<Identifier<C>, round2::Package<C>> = BTreeMap::new();
+                        m2.insert(sender, round2::Package::new(share_from_scalar::<C>(&share)));
+                        let mut complete = m1.len() == 1;
+                        if !complete {
+                            // other senders: take their real round-2 shares for participant 0 from the fresh honest run made above
+                            if let Some(hon) = honest_r2_for_zero::<C>(scen, &cx) {
+                                for (id, pkg) in hon {
+                                    if id != sender {
+                                        m2.insert(id, pkg);
+                                    }
+                                }
+                                complete = m2.len() == m1.len();
+                            }
+                        }
+                        if complete {
+                            rep.evaluations += 1;
+                            rep.probe("targeted_zero_sum_dkg");
+                            let r = guarded(|| {
+                                if let Ok((kp, pk)) = dkg::part3::<C>(s2, &m1, &m2) {
+                                    let _ = pk.serialize();
+                                    let _ = kp.serialize();
+                                    let _ = serde_json::to_string(&pk);
+                                    let _ = format!("{pk:?}");
+                                    let sk = SigningKey::<C>::new(&mut SimRng::good(stream(1, 1, "c14/zs")));
+                                    let sig = sk.sign(SimRng::good(stream(1, 2, "c14/zs")), b"m");
+                                    let _ = pk.verifying_key().verify(b"m", &sig);
+                                    let _ = frost::batch::Item::<C>::new(*pk.verifying_key(), sig, b"m").map(|i| i.verify_single());
+                                    if C::IS_TR {
+                                        let _ = C::tweak_pk(pk.clone(), None);
+                                        let _ = C::tweak_kp(kp.clone(), Some(b"root"));
+                                    }
+                                }
+                                let commitments: BTreeMap<Identifier<C>, &VerifiableSecretSharingCommitment<C>> = m1.iter().map(|(id, pk)| (*id, pk.commitment())).chain(std::iter::once((cx.ids[0], s2.commitment()))).collect();
+                                if let Ok(pk) = PublicKeyPackage::<C>::from_dkg_commitments(&commitments) {
+                                    let _ = pk.serialize();
+                                    if C::IS_TR {
+                                        let _ = C::tweak_pk(pk, None);
+                                    }
+                                }
+                            });
+                            if let Err(msg) = r {
+                                return Exec::Violation(Violation::new("C14", "C14.panic", format!("dkg::part3 / from_dkg_commitments with a round-1 contribution that cancels all other constant terms (group key = identity): PANIC {msg}")), rep);
+                            }
+                        }
+                    }
+                }
+            }
+        }
+    }
+    // (2) an oversized but CONSISTENT dealer share: 65536 + t commitment entries whose polynomial the share lies on
+    let oversized = scen.extra.get("oversized").and_then(|v| v.as_bool()).unwrap_or(C::COST <= 1 && scen.run % 24 == 0);
+    if oversized {
+        let id = cx.ids[0];
+        let x = id_scalar::<C>(&id);
+        let total = 65536 + scen.t as usize;
+        let distinct: Vec<frost::Scalar<C>> = (0..8).map(|_| sc_random_nonzero::<C>(&mut p)).collect();
+        let dcomm: Vec<Vec<u8>> = distinct.iter().map(|c| el_bytes::<C>(&base::<C>(*c)).unwrap()).collect();
+        let mut share = zero::<C>();
+        let mut xp = one::<C>();
+        let mut entries: Vec<&Vec<u8>> = Vec::with_capacity(total);
+        for k in 0..total {
+            share = share + distinct[k % 8] * xp;
+            xp = xp * x;
+            entries.push(&dcomm[k % 8]);
+        }
+        if let Ok(cm) = VerifiableSecretSharingCommitment::<C>::deserialize(entries.iter()) {
+            rep.evaluations += 1;
+            rep.probe("targeted_oversized_share");
+            let sh = SecretShare::<C>::new(id, share_from_scalar::<C>(&share), cm.clone());
+            let r = guarded(|| {
+                let through_wire = enc(Fmt::Bin, &sh).and_then(|b| dec::<SecretShare<C>>(Fmt::Bin, &b));
+                if let Ok(s2) = through_wire {
+                    let _ = s2.verify();
+                    let _ = KeyPackage::<C>::try_from(s2);
+                }
+                let ids: std::collections::BTreeSet<Identifier<C>> = cx.ids.iter().take(2).cloned().collect();
+                let _ = PublicKeyPackage::<C>::from_commitment(&ids, &cm);
+                let _ = refresh::refresh_share::<C>(sh.clone(), &cx.kps[0]);
+            });
+            if let Err(msg) = r {
+                return Exec::Violation(Violation::new("C14", "C14.panic", format!("a consistent dealer share with {total} commitment entries (KeyPackage::try_from / from_commitment / refresh_share): PANIC {msg}")), rep);
+            }
+        }
+    }
     rep.probe_n("decoder_inputs", decodes);
     rep.nontrivial = true;
     rep.sample = Some(json!({"suite": scen.suite, "n": scen.n, "t": scen.t, "decoder_inputs": decodes, "decoders": names, "entry_point_calls": calls * CALLS.len(), "mutated_values_that_still_decoded": adv_bytes.values().map(|v| v.len()).sum::<usize>()}));
@@ -1044,4 +1171,25 @@ fn adversarial_call<C: Suite>(ci: usize, cx: &Ctx<C>, p: &mut Prng, scen: &Scena
             }
         }
     }
+}
+
+/// The round-2 packages an honest run (the fresh one made for part B) sends to participant 0.
+fn honest_r2_for_zero<C: Suite>(scen: &Scenario, cx: &Ctx<C>) -> Option<BTreeMap<Identifier<C>, round2::Package<C>>> {
+    let n = scen.n as usize;
+    let mut secs = Vec::new();
+    let mut pkgs: BTreeMap<Identifier<C>, round1::Package<C>> = BTreeMap::new();
+    for j in 0..n {
+        let rng = SimRng::good(stream(scen.seed, scen.run, &format!("c14/dkg/{j}")));
+        let (s, p) = dkg::part1::<C, _>(cx.ids[j], scen.n, scen.t, rng).ok()?;
+        secs.push(s);
+        pkgs.insert(cx.ids[j], p);
+    }
+    let mut out = BTreeMap::new();
+    for j in 1..n {
+        let mut m = pkgs.clone();
+        m.remove(&cx.ids[j]);
+        let (_, r2) = dkg::part2::<C>(secs[j].clone(), &m).ok()?;
+        out.insert(cx.ids[j], r2.get(&cx.ids[0])?.clone());
+    }
+    Some(out)
 }
